@@ -215,7 +215,7 @@ func VerifC19Request() {
 	}
 
 	c19Mark()
-	handleRequest(c, c19Logger(), id)
+	c19Run(func() { handleRequest(c, c19Logger(), id) })
 	c19Settle()
 
 	processed := p.processed(e)
